@@ -93,6 +93,30 @@ func genBytes(t *rapid.T) (string, []string) {
 	if rapid.Bool().Draw(t, "with-exclusions") {
 		excl = genCursorExclusions(t, d.root, "excl")
 	}
+	// one document in eight repeats a member name inside an object (RFC 8259: names SHOULD be unique; parsers
+	// accept repetitions): the repeated member carries a scalar of its own, which is a value like any other
+	if chance(t, "repeated-member", 1, 8) {
+		var objs []*node
+		for _, l := range walk(d.root) {
+			if l.n.K == kObj && len(l.n.Keys) > 0 {
+				objs = append(objs, l.n)
+			}
+		}
+		if len(objs) > 0 {
+			o := objs[rapid.IntRange(0, len(objs)-1).Draw(t, "repeat-in")]
+			k := rapid.IntRange(0, len(o.Keys)-1).Draw(t, "repeat-key")
+			v := rapid.SampledFrom([]*node{{K: kStr, S: "s3cr3t-value"}, {K: kNum, N: "987654"}, {K: kBool, B: true}, {K: kStr, S: "owner@corp.example"}}).Draw(t, "repeat-value")
+			o.Keys = append(o.Keys, o.Keys[k])
+			o.Vals = append(o.Vals, v)
+			if o.rawKeys != nil {
+				o.rawKeys = append(o.rawKeys, o.rawKeys[k])
+			}
+			d.text = render(d.root, false)
+			if chance(t, "repeat-only", 1, 2) {
+				return d.text, nil // no exclusions, no byte mutations: the input is accepted and every leaf must come out hashed
+			}
+		}
+	}
 	b := []byte(d.text)
 	if chance(t, "free-text", 1, 10) {
 		b = rapid.SliceOfN(rapid.SampledFrom(mutationBytes), 0, 24).Draw(t, "bytes")
